@@ -13,6 +13,7 @@ pub mod c08;
 pub mod c09;
 pub mod c10;
 pub mod c11;
+pub mod c12;
 pub mod c15;
 pub mod c16;
 pub mod c17;
@@ -33,6 +34,7 @@ pub fn cases(prop: &str, tier: Tier) -> u64 {
         "C09" => c09::cases(tier),
         "C10" => c10::cases(tier),
         "C11" => c11::cases(tier),
+        "C12" => c12::cases(tier),
         "C15" => c15::cases(tier),
         "C16" => c16::cases(tier),
         "C17" => c17::cases(tier),
@@ -55,6 +57,7 @@ pub fn run_case(prop: &str, env: &Env, ctx: &mut Ctx, idx: u64) {
         "C09" => c09::run_case(env, ctx, idx),
         "C10" => c10::run_case(env, ctx, idx),
         "C11" => c11::run_case(env, ctx, idx),
+        "C12" => c12::run_case(env, ctx, idx),
         "C15" => c15::run_case(env, ctx, idx),
         "C16" => c16::run_case(env, ctx, idx),
         "C17" => c17::run_case(env, ctx, idx),
